@@ -20,14 +20,7 @@ verus! {
 //@ extract fn atom_size_blob from src/classic/clvm/serialize.rs
 //@ canary wrong_shift @<((size >> 16) & 0xFF) as u8,>@ => @<((size >> 8) & 0xFF) as u8,>@
 //@ replace R1 @<format!("oversize bytes is unrepresentable {size:?}")>@ => @<verif_opaque_string()>@
-//@ sig r
-    requires bv(*b).len() <= i64::MAX
-    ensures
-        bv(*b).len() < 0x400000000 <==> r is Ok,
-        r is Ok && bv(*b).len() == 0 ==> r->Ok_0.0 == false && r->Ok_0.1@ == seq![0x80u8],
-        r is Ok && bv(*b).len() == 1 && bv(*b)[0] <= 0x7f ==> r->Ok_0.0 == false && r->Ok_0.1@ == bv(*b),
-        r is Ok && !(bv(*b).len() == 0) && !(bv(*b).len() == 1 && bv(*b)[0] <= 0x7f)
-            ==> r->Ok_0.0 == true && r->Ok_0.1@ == size_prefix(bv(*b).len() as u64),
+//@ sigfile r contracts/atom_size_blob.sig
 //@ before stmt @<if size < 0x40>@
     let ghost n = size as u64;
     proof {
